@@ -76,6 +76,9 @@ fn c01_csvdump_rows_match_disk() {
         let s = if verify { 1 } else { 0 };
         let blocks = match fetch_blocks(d.path(), coin, s, 5, verify) { Ok(b) => b, Err(m) => { fail(suite, "C01:well_formed_chain_parses", &format!("{} verify={}", coin, verify), &m, "Ok"); continue; } };
         let out = tempfile::tempdir().unwrap();
+        // leftovers of an earlier, aborted dump into the same folder (longer than anything this run writes for the small
+        // files): the new dump holds exactly the rows of this run
+        for f in ["blocks", "transactions", "tx_in", "tx_out"] { std::fs::write(out.path().join(format!("{}.csv.tmp", f)), "stale;row;of;an;aborted;run\n".repeat(if f == "blocks" { 400 } else { 3 })).unwrap(); }
         let m = CsvDump::build_subcommand().get_matches_from(vec!["csvdump", out.path().to_str().unwrap()]);
         let mut cb = CsvDump::new(&m).unwrap();
         log_begin();
